@@ -98,6 +98,9 @@ def camel(s):
 # ---------------------------------------------------------------------------
 # field generators
 
+NO_REP_BOOL = [False]
+
+
 def rand_fields(rng, m, enums, msgs, n, tags, reserved=True, kinds=None, wkts=WKT):
     used = {x.name for x in m.pb.field}
     kinds = kinds or (["scalar"] * 5 + ["enum", "msg", "wkt", "rep_scalar", "rep_msg", "rep_enum",
@@ -126,7 +129,7 @@ def rand_fields(rng, m, enums, msgs, n, tags, reserved=True, kinds=None, wkts=WK
             tags.add("wkt:" + w)
             m.field(name, ".google.protobuf." + w)
         elif kind == "rep_scalar":
-            m.field(name, rng.choice(list(SCALARS)), repeated=True)
+            m.field(name, rng.choice([t for t in SCALARS if not (NO_REP_BOOL[0] and t == "bool")]), repeated=True)
         elif kind == "rep_msg":
             m.field(name, rng.choice(msgs + [".google.protobuf." + rng.choice(wkts)]), repeated=True)
         elif kind == "rep_enum":
@@ -348,6 +351,23 @@ def conventional(rng, name, feat=None):
             tags.add("body:" + str(body))
             s.rpc(f"{verb}{R}", P + f".{verb}{R}Request", P + f".{verb}{R}Response",
                   http={"post": f"/{uver}/{{name={name_glob}}}:{verb.lower()}"}, body=body, sigs=["name"], extra=extra)
+        if rng.random() < 0.5:
+            # several REQUIRED scalars that travel as query parameters, declared in non-alphabetical order
+            q = f.message(f"Search{R}sRequest")
+            if child:
+                q.field("parent", "string", required=True, child_ref=rt)
+            reqs_ = [("query", "string"), ("language_code", "string"), ("max_items", "int32"), ("exact", "bool"), ("boost", "double")]
+            rng.shuffle(reqs_)
+            for n_, t_ in reqs_[:rng.randint(2, 4)]:
+                q.field(n_, t_, required=True)
+            q.field("order_by", "string")
+            o = f.message(f"Search{R}sResponse")
+            o.field(coll, P + "." + R, repeated=True)
+            o.field("total", "int32")
+            s.rpc(f"Search{R}s", P + f".Search{R}sRequest", P + f".Search{R}sResponse",
+                  http={"get": f"/{uver}/{{parent=projects/*}}/{coll}:search" if child else f"/{uver}/{coll}:search"},
+                  sigs=["parent"] if child else [])
+            tags.add("required-query-params")
         if rng.random() < 0.4:
             q = f.message(f"Watch{R}Request")
             q.field("name", "string", required=True)
